@@ -561,7 +561,9 @@ Inductive event :=
   | EDrop                        (* the connection is lost (connection_lost(None)) *)
   | ECancel (t : nat)            (* task.cancel() *)
   | EAdvance (dt : N)            (* time passes; due timers are queued in deadline order *)
-  | ERun.                        (* the event loop runs the next ready callback *)
+  | ERun                         (* the event loop runs the next ready callback *)
+  | ELocalClose.                 (* the connection is closed from the local side by another actor (ClientSession /
+                                    connector close -> ResponseHandler.close()): transport.close(), connection_lost follows *)
 
 Definition task_free (k : task) : bool := match t_pc k with PIdle | PDone _ => true | _ => false end.
 Definition task_blocked (k : task) : bool :=
@@ -605,6 +607,7 @@ Definition step (c : config) (s : state) (e : event) : option state :=
   | ECancel t => if Nat.ltb t ntasks then Some (cancel_task s t) else None
   | EAdvance dt => Some (advance s dt)
   | ERun => match ready s with [] => None | r :: rest => Some (run_item c (set_ready s rest) r) end
+  | ELocalClose => Some (transport_close s)
   end.
 
 Definition init (c : config) : state :=
